@@ -1,0 +1,51 @@
+//go:build verif
+// +build verif
+
+// Exports for the external verification harness (/verif). Compiled only with -tags verif.
+// Add-only: nothing here is used by the package itself.
+
+package table
+
+import (
+	"bytes"
+
+	"github.com/syndtr/goleveldb/leveldb/comparer"
+	"github.com/syndtr/goleveldb/leveldb/iterator"
+	"github.com/syndtr/goleveldb/leveldb/util"
+)
+
+// VerifBlockBuild encodes the pairs as one block (blockWriter.append for every pair, then
+// blockWriter.finish) and returns the block bytes without trailer.
+func VerifBlockBuild(restartInterval int, keys, values [][]byte) ([]byte, error) {
+	bw := &blockWriter{restartInterval: restartInterval, scratch: make([]byte, 30)}
+	for i := range keys {
+		if err := bw.append(keys[i], values[i]); err != nil {
+			return nil, err
+		}
+	}
+	if err := bw.finish(); err != nil {
+		return nil, err
+	}
+	return append([]byte{}, bw.buf.Bytes()...), nil
+}
+
+// VerifBlockBytesLen replays blockWriter.bytesLen after appending the pairs (before finish).
+func VerifBlockBytesLen(restartInterval int, keys, values [][]byte) int {
+	bw := &blockWriter{restartInterval: restartInterval, scratch: make([]byte, 30)}
+	for i := range keys {
+		bw.append(keys[i], values[i])
+	}
+	return bw.bytesLen()
+}
+
+// VerifBlockIter opens a block iterator (Reader.readBlock without checksum verification, then
+// Reader.newBlockIter) over raw block bytes (without trailer) as an uncompressed block.
+func VerifBlockIter(cmp comparer.Comparer, data []byte, slice *util.Range, inclLimit bool) (iterator.Iterator, error) {
+	raw := append(append([]byte{}, data...), blockTypeNoCompression, 0, 0, 0, 0)
+	r := &Reader{cmp: cmp, reader: bytes.NewReader(raw)}
+	b, err := r.readBlock(blockHandle{0, uint64(len(data))}, false)
+	if err != nil {
+		return nil, err
+	}
+	return r.newBlockIter(b, nil, slice, inclLimit), nil
+}
